@@ -108,7 +108,7 @@ func init() {
 		},
 		Subs: []h.Sub{
 			{
-				Name: "concurrent-readers", Count: h.Fixed(12, 400), Serial: true, BudgetSec: 900,
+				Name: "concurrent-readers", Count: h.Fixed(12, 400), Serial: true, BudgetSec: 300,
 				Run: func(c *h.Ctx, idx uint64, r *h.Rand) {
 					sizes := []int{0, 1, 7, 1000, 1000, 5000, 50000}
 					n := sizes[int(idx)%len(sizes)]
